@@ -109,8 +109,10 @@ def run(ctx, res):
         evs = [e for e in p.events if e.kind != "branch"]
         push = [e for e in evs if e.kind == "call" and e.a == "uint64_vec_add" and canon(call_args(e.node)[0]) == "b->restarts"]
         cnt = [e for e in evs if e.kind == "store" and e.a.endswith("->counter")]
-        first_enc = [i for i, e in enumerate(evs) if e.kind == "call" and e.a == "mtbl_varint_encode32"]
-        sharedv = evs[first_enc[0]].b[1] if first_enc else None
+        first_enc = [i for i, e in enumerate(evs) if (e.kind == "call" and e.a in ("mtbl_varint_encode32", "memcpy")) or
+                     (e.kind == "store" and re.match(r"^\w+\[#\d+\]$", e.a))]
+        sh = [e for e in evs if e.kind == "store" and e.a == "shared"]
+        sharedv = sh[-1].b if sh else None
         if c == frozenset((LT,)):
             good = not push and len(cnt) == 1 and cnt[0].b[1].endswith("+#1)")
             res.check(good, "C09.R3", site(add, "share"), "counter < interval: prefix shared, no restart point, counter += 1",
@@ -208,6 +210,55 @@ def run(ctx, res):
             writers.add(g.name)
     res.check(writers == {"mtbl_writer_init_fd", "_mtbl_writer_write_data_block", "_mtbl_writer_finish"}, "C09.R5", "pending_offset:writers",
               "pending_offset changes only at init, per data block and for the index block", "pending_offset is also changed by %s" % sorted(writers))
+
+    # ---- R6 separator never drops below the block's last key ----------------------------------------
+    res.floor("C09.R6", 2)
+    sepf = prog.need("bytes_shortest_separator", W)
+    res.saw(sepf)
+    evs_ = APE.run(prog, cg, sepf, bound=1)
+    nmod = 0
+    for p in evs_.paths:
+        if p.end != "exit":
+            continue
+        locs = {}
+        for e in p.events:
+            if e.kind == "store" and e.a.isidentifier():
+                locs[e.a] = e.b
+            mods = []
+            if e.kind == "store" and e.a.startswith("ubuf_data(%s)" % sepf.params[0]["name"]):
+                mods.append(APE.vstr(e.b))
+            if e.kind == "call" and e.a == "memcpy" and APE.vstr(e.b[0]).startswith("&ubuf_data(%s)" % sepf.params[0]["name"]):
+                src = APE.vstr(e.b[1])
+                if src.startswith("&") and src[1:] in locs:
+                    mods.append(APE.vstr(locs[src[1:]]))
+                else:
+                    mods.append(src)
+            for e2 in ([e] if e.kind == "call" and e.outs else []):
+                for i, sym in e2.outs.items():
+                    vs = APE.vstr(e2.b[i])
+                    if vs.startswith("&") and vs[1:].isidentifier():
+                        locs[vs[1:]] = sym
+            for val in mods:
+                nmod += 1
+                incs = re.findall(r"\(((?:[^()]|\([^()]*\)|\((?:[^()]|\([^()]*\))*\))+)\+#1\)", val)
+                if not incs:
+                    res.bad("C09.R6", site(sepf, "modification"), "separator bytes are overwritten with %s (not an increment of the old value)" % val[:80],
+                            sepf.loc(e.node), p.describe(sepf))
+                    continue
+                for X in incs:
+                    c8 = p.cons.get((X, "#255"))
+                    cw = p.cons.get((X, "(%s+#1)" % X))
+                    guarded = (c8 is not None and c8 <= frozenset((LT,))) or (cw is not None and GT not in cw)
+                    res.check(guarded, "C09.R6", site(sepf, "increment-guarded"),
+                              "an incremented key byte/word is proven not to wrap (byte < 0xFF, or value <= value+1) on the path",
+                              "the separator is produced by incrementing %s with no test that it cannot wrap around: at 0xFF the byte becomes 0x00 and the index key sorts "
+                              "BELOW the block's last key (lookups of the block's tail keys miss)" % X[:60], sepf.loc(e.node), p.describe(sepf))
+    if nmod == 0:
+        raise BrokenAnalysis("bytes_shortest_separator: no modification of the separator recognised")
+    # the function still ends by asserting separator < limit
+    asserts = [n for n in walk(sepf.body) if n["k"] == "CallExpr" and n.get("callee") == "__assert_fail" and "bytes_compare" in canon(call_args(n)[0])]
+    res.check(len(asserts) >= 1, "C09.R6", site(sepf, "asserts-below-limit"), "the separator is asserted to sort below the next block's first key",
+              "the closing assertion separator < limit is gone", sepf.loc(sepf.body))
 
     # ---- trailer (shared with C10.R1) -------------------------------------------------------------
     sub = type(res)(res.prop, res.tier)
